@@ -110,6 +110,22 @@ def cli_tie(profile='C03', n_quick=80, n_thorough=1200, relative=False):
                shard=60, timeout=90)
 
 
+def cli_scenario_tie(name, fn, n_quick, n_thorough):
+    """a targeted scenario generator through the real command line, with the main file named by a relative path"""
+    from .scenarios import scenario_gen
+    base = scenario_gen(fn, n_quick, n_thorough)
+
+    def gen(rng, tier):
+        out = base(rng, tier)
+        for c in out:
+            c['cli_relative'] = rng.choice(['srcdir', 'parent', 'parent', None])
+        return out
+    return Tie(name=name, imports=['Base', 'Program'],
+               run_def='fun c => match run_prog c with Some (img, _) => Some (img, ([] : list (Z * list Z))) | None => None end',
+               eqb='obs_prog_eqb', gen=gen, impl=sysgen.impl_cli, case_term=sysgen.case_term, obs_term=sysgen.obs_term_image_only,
+               nontrivial=nontrivial, classify=lambda c: c.get('fault') or 'scenario', shard=60, timeout=90)
+
+
 def placement_tie(n_quick=500, n_thorough=10000):
     return Tie(name='placement', imports=['Base', 'Program'], run_def='run_prog', eqb='obs_prog_eqb',
                gen=lambda rng, tier: [gen_placement(rng, tier) for _ in range(n_quick if tier == 'quick' else n_thorough)],
